@@ -50,6 +50,7 @@ type Case struct {
 	Status     int
 	Body       []Elem
 	ViaPackage bool // call the package-level wrapper (DefaultDatasource)
+	NilClient  bool // the datasource has no Client of its own (falls back to DefaultDatasource.Client) but keeps its own Limiter and BaseURL
 }
 
 var bases = []string{"", "http://osm.test/api/0.6", "https://mirror.test:8443/some/prefix/api/0.6"}
@@ -461,6 +462,12 @@ func check(c Case) error {
 		osmapi.DefaultDatasource.Client = ds.Client
 		osmapi.DefaultDatasource.Limiter = ds.Limiter
 		osmapi.DefaultDatasource.BaseURL = bases[c.Base]
+	} else if c.NilClient {
+		old := *osmapi.DefaultDatasource
+		defer func() { *osmapi.DefaultDatasource = old }()
+		osmapi.DefaultDatasource.Client = ds.Client
+		osmapi.DefaultDatasource.Limiter = nil
+		ds.Client = nil
 	}
 	var fo []osmapi.FeatureOption
 	var no []osmapi.NotesOption
@@ -708,6 +715,7 @@ func genCase(t *rapid.T) Case {
 	c.Limiter = rapid.SampledFrom([]int{0, 1, 1, 2}).Draw(t, "limiter")
 	c.Status = rapid.SampledFrom(statuses).Draw(t, "status")
 	c.ViaPackage = rapid.IntRange(0, 3).Draw(t, "pkg") == 0
+	c.NilClient = !c.ViaPackage && rapid.IntRange(0, 3).Draw(t, "nilClient") == 0
 	ep := endpoints[c.Endpoint]
 	// response body: 0, 1 or many elements of the requested kind plus other kinds
 	kinds := []string{"node", "way", "relation", "changeset", "note", "user"}
@@ -746,6 +754,9 @@ func TestEndpoints(t *testing.T) {
 			}
 			if c.ViaPackage {
 				cl = append(cl, "package-wrapper")
+			}
+			if c.NilClient {
+				cl = append(cl, "nil-client-fallback")
 			}
 			return c.Status != 200 || opt || (ep.params != nil && len(c.IDs) >= 2 && strings.HasSuffix(ep.name, "s")), cl
 		},
